@@ -26,16 +26,18 @@ theorem integrate_fresh_eq_spec (g : Geo) (d : Data) (hg : g.wf) (hf : g.fresh) 
   have : ¬ (g.vol.isArray = true ∧ g.dim ≠ 2 ∧ d.shape ≠ g.numVoxels) := fun ⟨a, b, c⟩ => b (h3 a c)
   rw [if_neg this]
 
-/-- ... and outside the guard the only other outcome is the documented `ValueError`
-(wrong number of axes; array volume at a foreign resolution outside 2-D). -/
+/-- ... and the model has exactly two other outcomes: the documented `ValueError` (array volume at a foreign resolution
+outside 2-D), and `Err.other`, which marks data with another number of axes than the geometry as OUTSIDE THE MODELLED
+DOMAIN: the code has no guard there (numpy broadcasts, e.g. `Geometry(2,(4,4),[4,4]).integrate(np.ones(4))` returns 4.0);
+such inputs are outside the property's quantifier, are not modelled and are not sent by the check. -/
 theorem integrate_fresh_total (g : Geo) (d : Data) (hg : g.wf) (hf : g.fresh) :
-    (step true g d).2 = .ok (spec g d) ∨ (step true g d).2 = .error .value := by
+    (step true g d).2 = .ok (spec g d) ∨ (step true g d).2 = .error .value ∨ (step true g d).2 = .error .other := by
   rw [(step_canonical g g d hg (inv_fresh g hg hf)).1]
   unfold canonical
   split
-  · exact Or.inr rfl
+  · exact Or.inr (Or.inr rfl)
   · split
-    · exact Or.inr rfl
+    · exact Or.inr (Or.inl rfl)
     · exact Or.inl rfl
 
 /-- The effective voxel volumes are a partition of the geometry's volume: at every data resolution
@@ -148,6 +150,75 @@ theorem spec_array_refine (g : Geo) (n1 n2 k1 k2 : Nat) (vf : List Nat → Rat)
   rw [sumRange_div n2 k2 hk2 (fun b => (1 / (k1 : Rat) * (1 / (k2 : Rat))) * vf [i1, b] * d.val [i1, b] c)]
   rw [← sumRange_mul_left, ← sumRange_mul_left]
   apply sumRange_congr; intro i2 _
+  field_simp
+
+/-- Array voxel volume, ANY dimension (1-D … n-D): a field that is piecewise constant on a grid `ms` coarser than the native
+grid `ms ⊙ ks` by integer factors gives the same integral at the coarse and at the native resolution
+(the effective volume of a coarse cell is the sum of the native volumes inside it). -/
+theorem spec_array_coarsen_nd (g : Geo) (ms ks : List Nat) (vf : List Nat → Rat)
+    (hv : g.vol = .array (mulShape ms ks) vf) (hl : ms.length = ks.length) (hm : allPos ms = true) (hk : allPos ks = true)
+    (d : Data) (hd : d.shape = ms) (c : Nat) :
+    specAt g d c = specAt g (d.replicate ks) c := by
+  have hN : specAt g (d.replicate ks) c = sumBox (mulShape ms ks) (fun i => vf i * d.val (divIdx i ks) c) := by
+    simp only [specAt, Data.replicate, hd]
+    apply sumBox_congr
+    intro idx hidx
+    simp only [effVol, hv]
+    rw [overlap_id _ vf idx hidx]
+  have hC : specAt g d c = sumBox (mulShape ms ks) (fun i => sumBox ms fun J => vf i * (if divIdx i ks = J then d.val J c else 0)) := by
+    simp only [specAt, hd, effVol, hv]
+    rw [sumBox_comm]
+    have : ∀ J, sumBox (mulShape ms ks) (fun i => vf i * overlapW (mulShape ms ks) ms i J) * d.val J c
+        = sumBox (mulShape ms ks) (fun i => vf i * overlapW (mulShape ms ks) ms i J * d.val J c) := by
+      intro J
+      have e : (fun i => vf i * overlapW (mulShape ms ks) ms i J * d.val J c)
+          = fun i => d.val J c * (vf i * overlapW (mulShape ms ks) ms i J) := by funext i; ring
+      rw [e, sumBox_mul_left]; ring
+    simp only [this]
+    apply sumBox_congr; intro J hJ
+    apply sumBox_congr; intro i hi
+    rw [overlapW_coarsen ms ks i J hl hm hk
+      ((inBox_length _ i hi).trans (mulShape_length ms ks hl)) (inBox_length ms J hJ)]
+    split <;> ring
+  rw [hN, hC]
+  apply sumBox_congr; intro i hi
+  have hin := inBox_divIdx ms ks i hl hk hi
+  have e : (fun J => vf i * (if divIdx i ks = J then d.val J c else 0))
+      = fun J => if divIdx i ks = J then vf i * d.val J c else 0 := by
+    funext J; split <;> ring
+  rw [e, sumBox_delta ms (divIdx i ks) (fun J => vf i * d.val J c) hin]
+
+/-- Array voxel volume, ANY dimension: a field given at the native resolution `ns` gives the same integral when supplied
+on a grid refined by integer factors `ks` (each fine cell carries `1/Πk` of the volume of its parent). -/
+theorem spec_array_refine_nd (g : Geo) (ns ks : List Nat) (vf : List Nat → Rat)
+    (hv : g.vol = .array ns vf) (hl : ns.length = ks.length) (hn : allPos ns = true) (hk : allPos ks = true)
+    (d : Data) (hd : d.shape = ns) (c : Nat) :
+    specAt g (d.replicate ks) c = specAt g d c := by
+  have hP : (prodL ks : Rat) ≠ 0 := by
+    have : 0 < prodL ks := by
+      clear hl
+      induction ks with
+      | nil => simp [prodL]
+      | cons k ks ih => rw [allPos_cons] at hk; simp only [prodL]; exact Nat.mul_pos hk.1 (ih hk.2)
+    positivity
+  have hN : specAt g d c = sumBox ns (fun i => vf i * d.val i c) := by
+    simp only [specAt, hd]
+    apply sumBox_congr; intro idx hidx
+    simp only [effVol, hv]
+    rw [overlap_id _ vf idx hidx]
+  have hF : specAt g (d.replicate ks) c
+      = sumBox (mulShape ns ks) (fun j => (fun I => 1 / (prodL ks : Rat) * (vf I * d.val I c)) (divIdx j ks)) := by
+    simp only [specAt, Data.replicate, hd, effVol, hv]
+    apply sumBox_congr; intro j hj
+    have hin := inBox_divIdx ns ks j hl hk hj
+    have e : sumBox ns (fun i => vf i * overlapW ns (mulShape ns ks) i j)
+        = sumBox ns (fun i => if divIdx j ks = i then vf i * (1 / (prodL ks : Rat)) else 0) := by
+      apply sumBox_congr; intro i hi
+      rw [overlapW_refine ns ks i j hl hn hk (inBox_length ns i hi) ((inBox_length _ j hj).trans (mulShape_length ns ks hl))]
+      split <;> ring
+    rw [e, sumBox_delta ns (divIdx j ks) (fun i => vf i * (1 / (prodL ks : Rat))) hin]; ring
+  rw [hN, hF, sumBox_div ns ks hl hk (fun I => 1 / (prodL ks : Rat) * (vf I * d.val I c)), ← sumBox_mul_left]
+  apply sumBox_congr; intro i _
   field_simp
 
 /-- History independence, for ALL histories: whatever sequence of `integrate` calls (any shapes, any
@@ -283,6 +354,45 @@ theorem weighted_wf_fresh (w : Weight) (dim : Nat) (nv : List Nat) (dims : List 
     · simp [ht, hp]
     · intro s' f' hv; simp at hv; rw [ht, ← hs]; exact hv.1.symm
     · simp [Geo.fresh]
+
+/-- every weighted kind (Weighted / Extruded / Porous): the effective voxel volume is voxel volume × weight -/
+theorem weighted_volume (w : Weight) (dim : Nat) (nv : List Nat) (dims : List Rat) (g : Geo)
+    (h : Geo.weighted w dim nv dims = .ok g) (idx : List Nat) :
+    g.vol.at idx = voxelVolume (nv.take dim) dims * w.at idx ∧ Geo.extruded w dim nv dims = .ok g ∧ Geo.porous w dim nv dims = .ok g := by
+  refine ⟨?_, h, h⟩
+  cases w with
+  | scalar x => simp only [Geo.weighted] at h; cases h; rfl
+  | array s f =>
+    simp only [Geo.weighted] at h
+    split at h
+    · cases h
+    · cases h; rfl
+
+/-- ExtrudedPorous: the weight is porosity × depth (floats, arrays or Images of one shape) -/
+theorem weight_mul_at (p d w : Weight) (h : p.mul d = .ok w) (idx : List Nat) : w.at idx = p.at idx * d.at idx := by
+  cases p <;> cases d <;> simp only [Weight.mul] at h
+  · cases h; rfl
+  · cases h; rfl
+  · cases h; rfl
+  · split at h
+    · cases h; rfl
+    · cases h
+
+theorem extrudedPorous_volume (p d : Weight) (dim : Nat) (nv : List Nat) (dims : List Rat) (g : Geo)
+    (h : Geo.extrudedPorous p d dim nv dims = .ok g) (idx : List Nat) :
+    g.vol.at idx = voxelVolume (nv.take dim) dims * (p.at idx * d.at idx) := by
+  simp only [Geo.extrudedPorous, bind, Except.bind] at h
+  cases hw : p.mul d with
+  | error e => rw [hw] at h; cases h
+  | ok w =>
+    rw [hw] at h
+    rw [(weighted_volume w dim nv dims g h idx).1, weight_mul_at p d w hw idx]
+
+theorem extrudedPorous_wf_fresh (p d w : Weight) (dim : Nat) (nv : List Nat) (dims : List Rat) (hw : p.mul d = .ok w)
+    (h : nv.length = dim) (hp : allPos nv = true) (hs : ∀ s f, w = .array s f → s = nv) :
+    ∃ g, Geo.extrudedPorous p d dim nv dims = .ok g ∧ g.wf ∧ g.fresh := by
+  obtain ⟨g, hg, h1, h2⟩ := weighted_wf_fresh w dim nv dims h hp hs
+  exact ⟨g, by simp only [Geo.extrudedPorous, bind, Except.bind, hw]; exact hg, h1, h2⟩
 
 /-! ### non-vacuity -/
 
